@@ -378,9 +378,12 @@ func runOp(op string, rep *hx.Report, c *hcase) string {
 	if c != nil && c.wf {
 		if res != "ok" {
 			rep.Fail("wellformed-hello-rejected:"+res, fmt.Sprintf("a well-formed %d-byte ClientHello record was not inspected: %s", len(c.stream), res), []string{op})
-		} else if info.ServerName != c.name || info.ProtoCount != len(c.protos) || (len(c.protos) > 0 && info.FirstProto != c.protos[0]) {
+		} else if info.ServerName != c.name || info.ProtoCount != len(c.protos) || info.FirstProto != first(c.protos) {
 			rep.Fail("wrong-name-or-alpn", fmt.Sprintf("reported (%q,%d,%q), the hello carries (%q,%d,%v)", info.ServerName, info.ProtoCount, info.FirstProto, c.name, len(c.protos), first(c.protos)), []string{op})
 		}
+	}
+	if c != nil && !c.wf && (c.kind == "fake-length" || c.kind == "garbage") && res == "ok" && (info.ServerName != "" || info.ProtoCount != 0 || info.FirstProto != "") {
+		rep.Fail("name-from-a-record-that-is-no-hello", fmt.Sprintf("bytes that are not a ClientHello were reported as naming %q (ALPN %d, %q)", info.ServerName, info.ProtoCount, info.FirstProto), []string{op})
 	}
 	var outs []string
 	var got []byte
